@@ -1,4 +1,4 @@
-\* thorough exported instance: election at height 3, two blocks after it
+\* WHAT-IF: CommitBlock seeds the election from the node's seen commit. TLC must report ReplicasAgree violated (the check treats anything else as a vacuous model)
 SPECIFICATION Spec
 CONSTANTS
   Cand = {"x", "y", "w"}
@@ -6,19 +6,18 @@ CONSTANTS
   Other = {"z"}
   MaxScore = 500
   InitScore <- InitXYW
-  MaxH = 5
-  EvBound <- EvExportBig
+  MaxH = 4
+  EvBound <- EvExport
   VotePeriod = 3
   Pledge <- PledgeXYW
   InitDeposit = 1
   Seeds = {"s1", "s2", "s3"}
   PermOf <- Perm3
   RepOrder <- Rep4
-  SeedFromSeen = FALSE
+  SeedFromSeen = TRUE
   Nume = 2
   Deno = 3
   UpperLimit = 12
 VIEW View
 INVARIANTS TypeOK ReplicasAgree NextValidatorsAgree ScoreInRange ListMirrorsContract ProdBounded ElectedFromContract
 CHECK_DEADLOCK FALSE
-ACTION_CONSTRAINT Edge
